@@ -221,6 +221,28 @@ var propSpecs = []PropSpec{
 				cfg.Preempt = 2
 			}
 		}},
+	{ID: "C08", Pkgs: []string{"pubsub"},
+		BoundsQ:     "lossless brokers (channel / unlimited Queue / unlimited Deque distributor, unbuffered subscriptions, 1 dispatch worker, sequential or parallel dispatch), 1 publisher with <=2 messages {concrete id, symbolic value}, <=2 subscribers (the second subscribing at a chosen point between the publishes), preemption bound 1; load-shedding brokers (bounded Queue, LIFO deque; buffered subscriptions): 3 publishes, 1 subscriber, only-published/no-duplicate clauses",
+		BoundsT:     "preemption bound 2",
+		Outside:     "several publishers, WorkerPoolSize>1, Unsubscribe; more messages/subscribers/preemptions",
+		Assumptions: commonAssumptions,
+		Tune: func(cfg *Config, tier, entry string) {
+			cfg.Preempt = 1
+			if tier == "thorough" {
+				cfg.Preempt = 2
+			}
+		}},
+	{ID: "C09", Pkgs: []string{"pubsub"},
+		BoundsQ:     "progress: 4 back-ends (channel, unlimited Queue, unlimited Deque, LIFO deque of capacity 2), a burst of <=3 publishes by one publisher goroutine, 1-2 subscribers that keep receiving, 1 dispatch worker; shutdown: 1 subscriber, 1 publisher (2 messages), a concurrent Wait and a concurrent Stop or context cancellation, then the clients' context is cancelled and every client call is made once more; preemption bound 1",
+		BoundsT:     "preemption bound 2",
+		Outside:     "WorkerPoolSize>1, ParallelDispatch, larger bursts; 'never stalls', 'promptly' = at quiescence under weak fairness; a subscriber that stops receiving without unsubscribing (premise of the property)",
+		Assumptions: commonAssumptions,
+		Tune: func(cfg *Config, tier, entry string) {
+			cfg.Preempt = 1
+			if tier == "thorough" {
+				cfg.Preempt = 2
+			}
+		}},
 	{ID: "TV", Pkgs: []string{"internal"}, BoundsQ: "translator validation corpus"},
 }
 
